@@ -479,7 +479,65 @@ def _r18_3(ctx):
     ctx.expect_instances("R18.3", 3 + n_worlds + 3)
 
 
+def _r18_4(ctx):
+    """Cooperating site of R18.3: tls_start_client reads `client.alpn` as the *override* handed to the callback.  For TLS-over-TLS (a secure web
+    proxy's CONNECT tunnel) the same Client object already carries the outer session's values, so ClientTLSLayer.__init__ must reset every
+    attribute the override is computed from before the inner handshake - otherwise the outer protocol (http/1.1) is forced on the inner session
+    although the upstream protocol is known.  The statements of __init__ before super().__init__ are interpreted (pyint) on a client that has
+    completed an outer session."""
+    from ..pyint import Interp
+    from ..pyint import Raised
+    from ..pyint import Rec
+
+    m = ctx.model
+    tsc = ctx.func(T, "TlsConfig.tls_start_client")
+    stmts, expr = _client_alpn_slice(tsc)
+    read = set()
+    aliases = {"client"}
+    for st in stmts:
+        if isinstance(st, (ast.Assign, ast.AnnAssign)) and isinstance(st.value, ast.Attribute) and attr_chain(st.value) in ("tls_start.conn", "tls_start.context.client"):
+            t = st.targets[0] if isinstance(st, ast.Assign) else st.target
+            if isinstance(t, ast.Name):
+                aliases.add(t.id)
+    for n in [x for st in stmts for x in ast.walk(st)] + list(ast.walk(expr)):
+        if isinstance(n, ast.Attribute) and isinstance(n.ctx, ast.Load):
+            ch = attr_chain(n)
+            for a in aliases:
+                if ch.startswith(a + ".") and ch.count(".") == 1:
+                    read.add(n.attr)
+            if ch.startswith("tls_start.conn.") and ch.count(".") == 2:
+                read.add(n.attr)
+    ctx.require(read, "tls_start_client: the client_alpn override no longer reads an attribute of the client connection (R18.4 premise changed)")
+    init = ctx.func(PT, "ClientTLSLayer.__init__")
+    params = [a.arg for a in init.args.args]
+    ctx.require(len(params) == 2, "ClientTLSLayer.__init__ signature changed")
+    pre = []
+    for st in init.body:
+        if any(isinstance(c, ast.Call) and isinstance(c.func, ast.Attribute) and c.func.attr == "__init__" for c in ast.walk(st)):
+            break
+        pre.append(st)
+    ctx.require(len(pre) < len(init.body), "ClientTLSLayer.__init__: super().__init__ call not found")
+    OUTER = {"alpn": b"http/1.1", "alpn_offers": [b"http/1.1"], "sni": "proxy.example", "cipher": "TLS_AES_128_GCM_SHA256", "cipher_list": ["x"], "tls_version": "TLSv1.3",
+             "timestamp_tls_setup": 1.0, "certificate_list": ["cert"], "mitmcert": "cert", "tls": True, "tls_established": True}
+    for a in read:
+        ctx.require(a in OUTER, f"tls_start_client reads client.{a}, which the R18.4 model of an established outer session does not know")
+    client = Rec("Client", **OUTER)
+    context = Rec("Context", client=client, layers=[Rec("HttpProxy"), Rec("ClientTLSLayer"), Rec("HttpLayer")])
+    it = Interp(m)
+    try:
+        it.block(pre, {params[0]: Rec("ClientTLSLayer"), params[1]: context}, m.module(PT), 0)
+    except Raised as r:
+        raise AnalysisError(f"ClientTLSLayer.__init__ raises {r.name} on a TLS-over-TLS client in the interpretation")
+    for a in sorted(read):
+        v = getattr(client, a)
+        ctx.check(not v, "R18.4", (PT, "ClientTLSLayer.__init__", init), f"client.{a} reset before the inner (TLS-over-TLS) handshake",
+                  f"client.{a} still holds the outer session's value {v!r} when the inner handshake starts: tls_start_client passes it to the ALPN callback as an override, "
+                  "so the inner session is pinned to the outer protocol instead of following the upstream server", desc=f"TLS-over-TLS: client.{a} cleared by ClientTLSLayer.__init__")
+    ctx.expect_instances("R18.4", 1)
+
+
 def check(ctx):
+    ctx.rule("R18.4", "ClientTLSLayer.__init__ clears, for TLS-over-TLS, every client attribute from which tls_start_client computes the ALPN override")
     ctx.rule("R18.1", "every return of alpn_select_callback is NO_OVERLAPPING_PROTOCOLS or proven a member of the offers on that path")
     ctx.rule("R18.2", "alpn_select_callback decision table over protocol classes x client override x upstream state x http2")
     ctx.rule("R18.3", "tls_start_client wiring of AppData (secure-web-proxy override, server.alpn, http2) and installation of the callback; no h2 mirrored upstream with http2 off")
@@ -490,9 +548,11 @@ def check(ctx):
     _r18_1(ctx, fn, params[1])
     _r18_2(ctx, fn)
     _r18_3(ctx)
+    _r18_4(ctx)
 
 
 MUTANTS = [
+    Mutant("tls-over-tls-keeps-outer-alpn", PT, "            context.client.alpn = None\n", "", "R18.4"),
     # reverse of the F-C18 fix (a66ecfd88)
     Mutant("F-C18-reverted-upstream-known-falls-through", T,
            "    if server_alpn:\n        if server_alpn in options:\n            return server_alpn\n        else:\n            # The remote server negotiated a protocol the client does not offer.\n            return SSL.NO_OVERLAPPING_PROTOCOLS\n",
